@@ -29,6 +29,7 @@ type SchedConfig struct {
 	StallHot  bool     `json:"stall_hot,omitempty"` // freeze only in front of a statement that touches a package-level variable, sync or sync/atomic
 	StallMax  int      `json:"stall_max,omitempty"` // number of freezes per run (0: one)
 	GCRate    uint64   `json:"gc_rate,omitempty"`
+	PoolRate  uint32   `json:"pool_rate,omitempty"`  // one sync.Pool Get in so many finds the pool empty, one Put in so many is dropped (0: never)
 	ClockRate uint32   `json:"clock_rate,omitempty"` // mean number of yields between two jumps of the simulated clock (0: it only creeps)
 	StepCap   uint64   `json:"step_cap,omitempty"`
 	Seed      uint64   `json:"seed"`
